@@ -373,6 +373,8 @@
 
 pub use anyhow::Result;
 
+#[cfg(feature = "verif_hooks")]
+pub mod verif_sync;
 pub mod base;
 pub use base::elide::{self, ObscureAction};
 pub use base::walk::{self, EdgeType};
